@@ -89,6 +89,9 @@ def run(ctx: Ctx) -> None:
     g.check_nonfinite(ctx, g.gen_nonfinite_cases(ctx, max(200, n // 10)))
     g.check_cases(ctx, "C13", cases)
 
+    from . import datapath  # full-stack stage: the same property through the real sourcing -> resampling -> formula stack
+    datapath.run_stage(ctx, {"C13-none"}, n_quick=40, n_thorough=600)
+
 
 def replay(ctx: Ctx, data: dict) -> None:
     python_flags()
